@@ -18,6 +18,7 @@ from vv.util import deq, nest, put, getp
 
 ID = 'C08'
 CASES = {'quick': 1000, 'thorough': 80000}
+FUZZ_RUNS = 40000        # thorough tier: atheris workers, -runs per worker
 RULE = ('Hypothesis draws 1..5 variables at distinct paths (depth 1..3 below one '
         'port), each from a family: numeric (int, dyadic float, int/float '
         'numpy arrays) with updater default/accumulate/set/null/'
